@@ -141,6 +141,17 @@ def generate(tier, rng):
             v = tpl.replace(b'%s', x)
             yield f'sh.parse.pl {hexs(v)}'
             yield f'sh.parse.ll {hexs(v)}'
+    # long items (the draft obliges parsers to support at least 1024-character strings, 512-character tokens, 16384-octet byte
+    # sequences; this parser has no upper limits): at and far beyond those sizes, in item and in parameter-value position
+    longs = [b'"' + b'a' * n_ + b'"' for n_ in (1021, 1022, 1023, 1024, 1025, 5000)] + [b'"' + b'\\"' * 500 + b'x' * 100 + b'"', b'"' + b'\\\\' * 600 + b'"']
+    longs += [b't' + b'o' * n_ for n_ in (510, 511, 512, 513, 3000)]
+    longs += [b'*' + base64.b64encode(rbytes(rng, n_)) + b'*' for n_ in (12284, 12285, 12286, 12287, 16384, 16385, 20000)]
+    longs += [b'1' * 18, b'9' * 19, b'-' + b'1' * 18]
+    for it in longs:
+        yield f'sh.parse.ll {hexs(it)}'
+        yield f'sh.parse.ll {hexs(b"a;b, " + it + b";" + it)}'
+        yield f'sh.parse.pl {hexs(b"label;k=" + it)}'
+        yield f'sh.parse.pl {hexs(b"label;k=" + it + b";z=1, other")}'
     # numbers and byte sequences in depth
     for v in ['0', '-0', '00012', '-', '--1', '1-', '-1a', '18446744073709551616', '-9223372036854775809', '9' * 30, '1.5', '1e3', '+1']:
         yield f'sh.parse.ll {hexs(v.encode())}'
